@@ -61,8 +61,19 @@ OVERLAYS = {
     "internal/pfcp": ["pfcp/zz_verif_l1_test.go"],
     "internal/gtpv1": ["gtpv1/zz_verif_gtpu_test.go"],
     "internal/report": ["report/zz_verif_flags_test.go"],
-    "internal/forwarder": ["forwarder/zz_verif_fwd_test.go"],
+    "internal/forwarder": ["forwarder/zz_verif_fwd_test.go", "forwarder/zz_verif_rules_test.go", "forwarder/zz_verif_export.go"],
     "pkg/factory": ["factory/zz_verif_cfg_test.go"],
+}
+
+
+# harness files that are added to OTHER packages whenever a test binary is built (exports and the
+# simulated kernel, all under build tag verif)
+COMMON_OVERLAY = {
+    "internal/forwarder/zz_verif_export.go": "forwarder/zz_verif_export.go",
+    "internal/forwarder/buffnetlink/zz_verif_export.go": "buffnetlink/zz_verif_export.go",
+    "internal/forwarder/perio/zz_verif_export.go": "perio/zz_verif_export.go",
+    "internal/zzverif/simk/simk.go": "simk/simk.go",
+    "internal/zzverif/simk/unsafe.go": "simk/unsafe.go",
 }
 
 
@@ -70,11 +81,14 @@ def build_test_binary(pkg, race=False, extra_files=None):
     """go test -c for a repository package with the harness files ADDED by overlay (nothing is replaced)."""
     files = list(OVERLAYS.get(pkg, [])) + list(extra_files or [])
     rep = {}
+    for dst, src in COMMON_OVERLAY.items():
+        rep[os.path.join(REPO, dst)] = os.path.join(HARNESS, src)
     for f in files:
         dst = os.path.join(REPO, pkg, os.path.basename(f))
+        rep[dst] = os.path.join(HARNESS, f)
+    for dst in rep:
         if os.path.exists(dst):
             raise Infra("overlay would replace a repository file: %s" % dst)
-        rep[dst] = os.path.join(HARNESS, f)
     d = sub("build")
     ov = os.path.join(d, "overlay-%s.json" % pkg.replace("/", "_"))
     with open(ov, "w") as fh:
